@@ -225,7 +225,36 @@ func (g *storeGen) pickUniverse(n int, big bool) {
 		os = append(os, objs[g.r.intn(len(objs))])
 	}
 	os = append(os, triple.NewNodeObject(ns[0]))
+	// no two different subjects, and no two different objects, of one universe share a UUID (D02:
+	// look-ups by a colliding component are exercised by the listed witness histories only)
+	{
+		seenU := map[string]string{}
+		var keep []*node.Node
+		for _, n := range ns {
+			u := string(n.UUID())
+			if prev, ok := seenU[u]; ok && prev != encNode(n) {
+				continue
+			}
+			seenU[u] = encNode(n)
+			keep = append(keep, n)
+		}
+		ns = keep
+		seenO := map[string]string{}
+		var keepO []*triple.Object
+		for _, o := range os {
+			u := string(o.UUID())
+			if prev, ok := seenO[u]; ok && prev != encObj(o) {
+				if _, isP := o.Predicate(); isP != nil || prev[:2] != "PT" {
+					continue
+				}
+			}
+			seenO[u] = encObj(o)
+			keepO = append(keepO, o)
+		}
+		os = keepO
+	}
 	seen := map[string]bool{}
+	byUUID := map[string]string{}
 	for tries := 0; len(g.uni) < n && tries < 10*n; tries++ {
 		t, err := triple.New(ns[g.r.intn(len(ns))], ps[g.r.intn(len(ps))], os[g.r.intn(len(os))])
 		if err != nil {
@@ -237,8 +266,32 @@ func (g *storeGen) pickUniverse(n int, big bool) {
 			continue
 		}
 		seen[k] = true
+		// Generated universes are free of UUID collisions between different values (known findings
+		// D02/D04 are exercised by their own listed witness histories, see known_findings.json);
+		// the same instant in two zones is the same value and is kept.
+		if safeUUID(t) {
+			u := string(t.UUID())
+			id := valueIdentity(t)
+			if prev, ok := byUUID[u]; ok && prev != id {
+				continue
+			}
+			byUUID[u] = id
+		}
 		g.define(t)
 	}
+}
+
+// valueIdentity renders a triple so that two renderings are equal exactly when the triples are the
+// same value (kinds and components; anchors as instants, whatever the zone).
+func valueIdentity(t *triple.Triple) string {
+	norm := func(enc string) string {
+		f := strings.Split(enc, ",")
+		if f[0] == "PT" {
+			return strings.Join(f[:3], ",")
+		}
+		return enc
+	}
+	return encNode(t.Subject()) + " " + norm(encPred(t.Predicate())) + " " + norm(encObj(t.Object()))
 }
 
 func (g *storeGen) okIDs() []int {
